@@ -61,6 +61,102 @@ func (c *ctx) aesCall(caseID int64, what string, wit map[string]any, fn func()) 
 	return false
 }
 
+type otherKey struct {
+	class string // what it shares with / how it differs from the sealing key
+	key   string
+}
+
+// otherKeys enumerates keys that are NOT the sealing key: one flipped bit and one replaced byte at EVERY byte
+// position, keys that share only a prefix (8 / 16 / 24 bytes) or only the last 16 bytes, an unrelated key, and
+// (crossLength) the valid shorter prefixes / zero-extended longer keys.
+func otherKeys(r *rand.Rand, key string, crossLength bool) []otherKey {
+	n := len(key)
+	var out []otherKey
+	for j := 0; j < n; j++ {
+		b := []byte(key)
+		b[j] ^= 1 << r.IntN(8)
+		out = append(out, otherKey{fmt.Sprintf("one-bit-flipped@byte%02d", j), string(b)})
+		b = []byte(key)
+		b[j] += byte(1 + r.IntN(255))
+		out = append(out, otherKey{fmt.Sprintf("one-byte-replaced@byte%02d", j), string(b)})
+	}
+	differ := func(b []byte, from, to int) { // make every byte in [from,to) differ from the sealing key
+		for j := from; j < to; j++ {
+			b[j] = key[j] + byte(1+r.IntN(255))
+		}
+	}
+	for _, share := range []int{8, 16, 24} {
+		if share < n {
+			b := []byte(key)
+			differ(b, share, n)
+			out = append(out, otherKey{fmt.Sprintf("shares-first-%d-bytes", share), string(b)})
+			// and the minimal form: only the very last byte differs is covered by the sweep; here only ONE byte after the shared prefix
+			b = []byte(key)
+			differ(b, share, share+1)
+			out = append(out, otherKey{fmt.Sprintf("differs-only-at-byte-%d", share), string(b)})
+		}
+	}
+	if n >= 16 {
+		b := []byte(key)
+		differ(b, 0, n-16)
+		if n == 16 {
+			differ(b, 0, 1)
+			out = append(out, otherKey{"differs-only-at-byte-0", string(b)})
+		} else {
+			out = append(out, otherKey{"shares-last-16-bytes", string(b)})
+		}
+	}
+	rnd := randBytes(r, n)
+	if string(rnd) != key {
+		out = append(out, otherKey{"unrelated-same-length", string(rnd)})
+	}
+	if crossLength {
+		for _, l := range []int{16, 24, 32} {
+			if l < n {
+				out = append(out, otherKey{fmt.Sprintf("prefix-%d-of-%d", l, n), key[:l]})
+			} else if l > n {
+				out = append(out, otherKey{fmt.Sprintf("zero-extended-%d-to-%d", n, l), key + string(make([]byte, l-n))})
+				out = append(out, otherKey{fmt.Sprintf("self-extended-%d-to-%d", n, l), (key + key)[:l]})
+			}
+		}
+	}
+	return out
+}
+
+// sweepOtherKeys opens one sealed value under every key of otherKeys; for plaintexts of >= 8 bytes none may yield the plaintext.
+func (c *ctx) sweepOtherKeys(caseID int64, r *rand.Rand, api, vioKey, key, p string, wit map[string]any, crossLength bool, open func(k string) (string, error)) bool {
+	for _, ok := range otherKeys(r, key, crossLength) {
+		if ok.key == key {
+			c.run.HarnessBug("otherKeys produced the sealing key itself: " + ok.class)
+			return false
+		}
+		var o string
+		var oerr error
+		if !c.aesCall(caseID, api+"(other key)", wit, func() { o, oerr = open(ok.key) }) {
+			return false
+		}
+		switch {
+		case oerr != nil:
+			c.t.count("aes_other_key", api+" "+ok.class+": error")
+		case o == p && len(p) >= 8:
+			w := map[string]any{"other_key": ok.class, "other_key_hex": hex.EncodeToString([]byte(ok.key))}
+			for k, v := range wit {
+				w[k] = v
+			}
+			c.t.count("aes_other_key", api+" "+ok.class+": OPENED")
+			c.run.Violation(vioKey, caseID, fmt.Sprintf("%s: a sealed value of %d bytes opened to its plaintext under a different key (%s)", api, len(p), ok.class), w)
+			return false
+		case o == p:
+			c.t.count("aes_other_key", api+" (plaintext shorter than 8 bytes: not judged)")
+		default:
+			c.t.count("aes_other_key", api+" "+ok.class+": different plaintext")
+			c.observe("aes:wrong-key")
+			c.observe("aes:wrong-key:" + api)
+		}
+	}
+	return true
+}
+
 func runAES(c *ctx, i int) {
 	caseID := partAES*partSize + int64(i)
 	r := c.run.CaseRand(uint64(partAES), i)
@@ -135,71 +231,42 @@ func runAES(c *ctx, i int) {
 		c.t.count("aes", "observed: two seals of the same plaintext differ (random IV)")
 	}
 
-	// --- only under the same key
-	others := map[string]string{}
-	kb := []byte(key)
-	flip := append([]byte{}, kb...)
-	flip[r.IntN(len(flip))] ^= 1 << r.IntN(8)
-	others["one-bit-flipped"] = string(flip)
-	others["random-same-length"] = string(randBytes(r, klen))
-	for _, l := range []int{16, 24, 32} {
-		if l != klen {
-			if l < klen {
-				others[fmt.Sprintf("prefix-%d", l)] = key[:l]
-			} else {
-				others[fmt.Sprintf("extended-%d", l)] = key + string(make([]byte, l-klen))
-			}
-		}
-	}
-	for name, ok := range others {
-		var o string
-		var oerr error
-		if !c.aesCall(caseID, "DecryptAES", wit, func() { o, oerr = crypto.DecryptAES(ct, ok) }) {
-			return
-		}
-		switch {
-		case oerr != nil:
-			c.t.count("aes", "other key ("+name[:4]+"..): error")
-		case o == p && len(p) >= 8:
-			w := map[string]any{"other_key": name, "other_key_hex": hex.EncodeToString([]byte(ok))}
-			for k, v := range wit {
-				w[k] = v
-			}
-			c.run.Violation("C12:aes:opens-under-another-key", caseID, "a sealed string opened to its plaintext under a different key ("+name+")", w)
-			return
-		case o == p:
-			c.t.count("aes", "other key: same plaintext but shorter than 8 bytes (not judged)")
-		default:
-			c.t.count("aes", "other key: different plaintext")
-			c.observe("aes:wrong-key")
-		}
+	// --- only under the same key: a positional sweep over the whole key
+	if !c.sweepOtherKeys(caseID, r, "crypto.DecryptAES", "C12:aes:opens-under-another-key", key, p, wit, true,
+		func(k string) (string, error) { return crypto.DecryptAES(ct, k) }) {
+		return
 	}
 	c.t.dim(fmt.Sprintf("aes|other-keys|k%d|p%s", klen, plen(len(p))))
 
-	// --- the op.Crypto wrapper
-	if klen == 32 {
-		var k32, o32 [32]byte
-		copy(k32[:], key)
-		copy(o32[:], others["random-same-length"])
-		cr, other := op.NewAESCrypto(k32), op.NewAESCrypto(o32)
-		var sealed, opened, foreign string
-		var e1, e2, e3 error
-		if !c.aesCall(caseID, "op.Crypto", wit, func() {
+	// --- the op.Crypto wrapper (what seals codes and opaque tokens): own 32-byte key, same sweep
+	{
+		var k32 [32]byte
+		copy(k32[:], randBytes(r, 32))
+		cr := op.NewAESCrypto(k32)
+		var sealed, opened string
+		var e1, e2 error
+		ow := map[string]any{"part": "aes", "api": "op.NewAESCrypto", "plaintext_hex": wit["plaintext_hex"], "key_hex": hex.EncodeToString(k32[:])}
+		if !c.aesCall(caseID, "op.Crypto", ow, func() {
 			sealed, e1 = cr.Encrypt(p)
 			opened, e2 = cr.Decrypt(sealed)
-			foreign, e3 = other.Decrypt(sealed)
 		}) {
 			return
 		}
+		ow["sealed"] = sealed
 		if e1 != nil || e2 != nil || opened != p {
-			c.run.Violation("C12:aes:roundtrip-op-crypto", caseID, fmt.Sprintf("op.NewAESCrypto: Decrypt(Encrypt(p)) != p (%v, %v)", e1, e2), wit)
+			c.run.Violation("C12:aes:roundtrip-op-crypto", caseID, fmt.Sprintf("op.NewAESCrypto: Decrypt(Encrypt(p)) != p (%v, %v)", e1, e2), ow)
 			return
 		}
-		if e3 == nil && foreign == p && len(p) >= 8 {
-			c.run.Violation("C12:aes:opens-under-another-key", caseID, "op.NewAESCrypto with another key opened the sealed string", wit)
+		if !c.sweepOtherKeys(caseID, r, "op.NewAESCrypto", "C12:aes:op-crypto:opens-under-another-key", string(k32[:]), p, ow, false,
+			func(k string) (string, error) {
+				var o32 [32]byte
+				copy(o32[:], k)
+				return op.NewAESCrypto(o32).Decrypt(sealed)
+			}) {
 			return
 		}
 		c.observe("aes:op-crypto")
+		c.t.dim(fmt.Sprintf("aes|op-crypto|p%s", plen(len(p))))
 	}
 
 	// --- bad key lengths: every length 0..40 is visited (i mod 41)
